@@ -351,8 +351,19 @@ pub fn run(tier: &str) -> i32 {
                     let (la, lb, lc) = (start.map(int_lit), stop.map(int_lit), step.map(int_lit));
                     let text = shape_text(&subject_lit, la.as_deref(), lb.as_deref(), lc.as_deref(), shape);
                     let (got_lit, st) = literal(interp, &text);
-                    acc.evals += 2;
-                    for (form, g) in [("parameter", &got), ("literal", &got_lit)] {
+                    // run-time subject (static type: the union of both kinds), constant bounds
+                    let mixed_text = format!("f := (s: [any] | string) -> any {{ return {} }}", shape_text("s", la.as_deref(), lb.as_deref(), lc.as_deref(), shape));
+                    let got_mixed = match guard(|| Code::parse(interp, &mixed_text)) {
+                        Ok(Ok(code)) => match guard(|| code.exec()) {
+                            Ok(Ok(Variable::Function(g))) => call(&g, vec![subject_val.clone()]),
+                            _ => "DEFINE FAILED".to_string(),
+                        },
+                        Ok(Err(e)) => format!("REJECTED {}", core::error_kind(&e)),
+                        Err(Stop::Panic(p)) => format!("PANIC {} @{}", p.short_msg(), p.file()),
+                        Err(Stop::Exhausted) => "EXHAUSTED".into(),
+                    };
+                    acc.evals += 3;
+                    for (form, g) in [("parameter", &got), ("literal", &got_lit), ("parameter-subject-literal-bounds", &got_mixed)] {
                         acc.outcomes.insert(g.chars().take(20).collect());
                         if *g != expect {
                             acc.violations.push(Violation {
